@@ -5,7 +5,9 @@ correspondence: the real EEMSRead / EEMSWrite bodies on generated datasets (grid
                 written together, every combination of the optional read parameters) vs the model of the command logic
 oracles:        written results read back (through the library directly and through EEMSRead) with the same shape, element kind and values, missing
                 exactly where any written result was missing; the template's dimension variables and coordinate values copied unchanged; float by
-                default; MissingValue masks exactly the equal cells (and keeps the file's own missing cells); positive and fuzzy checks raise
+                default; MissingValue masks exactly the equal cells (and keeps the file's own missing cells); positive and fuzzy checks raise;
+                a ladder of grids from 3e5 to 5e6 cells of odd shapes, rank 1-3, four element types, written and read back (`grid_ladder`); models whose
+                files are named relative to the current directory - bare `out.nc` - through Program(working_dir=""), the CLI and the body (`bare_relative_names`)
 """
 import os
 from fractions import Fraction
@@ -160,6 +162,156 @@ def programs(ctx, tmp):
             for dn in dims:
                 if dn not in ds.variables or not numpy.array_equal(numpy.ma.getdata(ds[dn][:]), numpy.array([10.5 * (k + 1) for k in range(ds[dn].shape[0])])):
                     ctx.fail("coordinate values of %s were not copied unchanged" % dn, desc); break
+
+
+# grids from some hundred thousand to a few million cells, of rank 1-3, none of them a power of two along any axis (a writer or reader that works through a
+# large grid piece by piece has a last, partial piece somewhere), stored as single / double precision and 16 / 32-bit integers
+GRID_LADDER = [((700, 431), "f8", 2), ((1025, 1025), "i4", 1), ((1500, 900), "f4", 2), ((5, 300000), "f8", 1), ((3, 700001), "i2", 2), ((2100001,), "f4", 1), ((7, 501, 401), "f4", 2),
+               ((1300003, 1), "i2", 1), ((1, 1300003), "f4", 1), ((2000, 1999), "f4", 1), ((2, 3, 350003), "i2", 1), ((2300, 2203), "i2", 1)]
+
+
+def grid_ladder(ctx, tmp):
+    """every grid of the ladder written (one result, or two with different missing cells) and read back - through the library and through EEMSRead: the shape,
+    the element kind, every value, and missing exactly where a written result was missing.  (Values and missing cells are functions of the cell's position,
+    so that a block of cells that is dropped, repeated or shifted shows.)"""
+    from netCDF4 import Dataset
+    from mpilot.libraries.eems.netcdf.io import EEMSWrite
+    tpl, outp = os.path.join(tmp, "tpl_ladder.nc"), os.path.join(tmp, "out_ladder.nc")
+    for shape, dt, k in GRID_LADDER:
+        n = int(numpy.prod(shape))
+        dims = ["d%d" % i for i in range(len(shape))]
+        with Dataset(tpl, "w") as ds:
+            for d, m in zip(dims, shape):
+                ds.createDimension(d, m)
+                v = ds.createVariable(d, "f4", (d,))
+                v[:] = numpy.arange(m, dtype="f4") * 0.5 + 10
+            ds.createVariable("grid", "i1", tuple(dims))             # (names the dimensions; holds nothing)
+        idx = numpy.arange(n, dtype=numpy.int64)
+        results = [numpy.ma.array((((idx + j) * 7919) % 1021 - 300).astype(dt).reshape(shape), mask=((idx % (53 + 44 * j)) == 7).reshape(shape)) for j in range(k)]
+        names = ["g%d" % j for j in range(k)]
+        union = numpy.zeros(shape, dtype=bool)
+        for a in results:
+            union |= numpy.ma.getmaskarray(a)
+        desc = {"shape": shape, "cells": n, "element_type": dt, "results": k, "value_of_cell_i": "((i + j) * 7919) % 1021 - 300 for result j, i = position in row-major order",
+                "missing_cells": "i % (53 + 44 * j) == 7"}
+        ctx.case("write-ladder %r %s %d" % (shape, dt, k), sample=None)
+        ctx.count("grid_ladder_cases")
+        if os.path.exists(outp):
+            os.remove(outp)
+        try:
+            EEMSWrite("W", []).execute(OutFileName=outp, OutFieldNames=[eems.Producer(a, nm, False) for a, nm in zip(results, names)], DimensionFileName=tpl, DimensionFieldName="grid")
+        except Exception as e:
+            ctx.fail("a grid of %s cells (%d in all) cannot be written: %s %s" % (" x ".join(map(str, shape)), n, type(e).__name__, str(e)[:100]), desc)
+            continue
+
+        def wrong(got, a, via):
+            gm = numpy.ma.getmaskarray(got)
+            if got.shape != tuple(shape):
+                return "%s: shape %r" % (via, got.shape)
+            if not numpy.array_equal(gm, union):
+                extra, lost = gm & ~union, union & ~gm
+                pos = numpy.argwhere(extra if extra.any() else lost)
+                return "%s: %d cells written with values come back missing, %d missing cells come back with values (first at %r, last at %r)" % (
+                    via, int(extra.sum()), int(lost.sum()), pos[0].tolist(), pos[-1].tolist())
+            same = numpy.ma.getdata(got)[~union] == numpy.ma.getdata(a)[~union]
+            if not same.all():
+                return "%s: %d values differ" % (via, int((~same).sum()))
+            return None
+        with Dataset(outp) as ds:
+            for nm, a in zip(names, results):
+                bad = "not in the dataset" if nm not in ds.variables else None
+                if bad is None:
+                    got = ds[nm][:]
+                    bad = "stored as %s" % got.dtype if (got.dtype.kind in "iu") != (a.dtype.kind in "iu") else wrong(got, a, "read through the library")
+                if bad:
+                    ctx.fail("a grid of %s cells (%s, %d results) written and read back: result %s %s" % (" x ".join(map(str, shape)), dt, k, nm, bad), desc)
+                    break
+            for d, m in zip(dims, shape):
+                if d not in ds.variables or not numpy.array_equal(numpy.ma.getdata(ds[d][:]), numpy.arange(m, dtype="f4") * 0.5 + 10):
+                    ctx.fail("a grid of %s cells: coordinate values of %s were not copied unchanged" % (" x ".join(map(str, shape)), d), desc)
+                    break
+        back = read_impl(outp, names[-1], "Integer" if dt[0] == "i" else None, None)
+        bad = ("%s %s" % (back[1], back[2][:100])) if back[0] != "ok" else "element type %s" % back[1].dtype if back[1].dtype.kind != ("i" if dt[0] == "i" else "f") else wrong(back[1], results[-1], "read by EEMSRead")
+        if bad:
+            ctx.fail("a grid of %s cells (%s) written and read back: result %s %s" % (" x ".join(map(str, shape)), dt, names[-1], bad), desc)
+        del results, idx, union
+
+
+BARE_MODEL = """Elev = EEMSRead(InFileName = "%(in)s", InFieldName = "elev")
+Slope = EEMSRead(InFileName = "%(in)s", InFieldName = "slope", MissingValue = -1)
+Out = EEMSWrite(OutFileName = "%(out)s", OutFieldNames = [Elev, Slope], DimensionFileName = "%(in)s", DimensionFieldName = "elev")
+"""
+
+
+def bare_relative_names(ctx, tmp):
+    """a model run from its own folder - `cd folder; mpilot eems-netcdf model.mpt`, `Program.from_source(text, working_dir="")` - names its files without any
+    folder part (`out.nc`), or relative to it (`./out.nc`, `results/out.nc`): with the process's current directory there, the results are written and read
+    back unchanged, like under absolute names.  (The current directory is put back afterwards.)"""
+    from netCDF4 import Dataset
+    from mpilot.cli.mpilot import main as cli_main
+    from mpilot.program import Program, EEMS_NETCDF_LIBRARIES
+    from mpilot.libraries.eems.netcdf.io import EEMSWrite
+    from .. import clicorr
+    d = os.path.join(tmp, "cwd")
+    os.makedirs(os.path.join(d, "results"), exist_ok=True)
+    ny, nx = 6, 9
+    idx = numpy.arange(ny * nx).reshape(ny, nx)
+    elev = numpy.ma.array((idx * 37 % 101) * 12.5, mask=(idx % 5 == 2))
+    slope = ((idx * 11) % 45) * 1.0
+    slope[idx % 7 == 3] = -1
+    want_mask = numpy.ma.getmaskarray(elev) | (slope == -1)
+    lat, lon = numpy.linspace(46.9, 46.8, ny), numpy.linspace(-110.9, -110.8, nx)
+    with Dataset(os.path.join(d, "in.nc"), "w") as ds:
+        ds.createDimension("lat", ny); ds.createDimension("lon", nx)
+        v = ds.createVariable("lat", "f8", ("lat",)); v.units = "degrees_north"; v[:] = lat
+        v = ds.createVariable("lon", "f8", ("lon",)); v.units = "degrees_east"; v[:] = lon
+        ds.createVariable("elev", "f8", ("lat", "lon"), fill_value=-9999.0)[:] = elev
+        ds.createVariable("slope", "f8", ("lat", "lon"))[:] = slope
+    start = os.getcwd()
+    os.chdir(d)
+    try:
+        for inn, out, how in (("in.nc", "out.nc", "program"), ("in.nc", "out.nc", "cli"), ("in.nc", "out.nc", "body"), ("./in.nc", "./out.nc", "program"), ("in.nc", "results/out.nc", "cli"),
+                              ("in.nc", "out.nc", "program."), ("in.nc", "out.nc", "cli./"), ("in.nc", "results/../out2.nc", "program"), (os.path.join(d, "in.nc"), "out.nc", "cli")):
+            src = BARE_MODEL % {"in": inn, "out": out}
+            desc = {"source": src, "current_directory": "the folder that holds in.nc (a 6 x 9 grid: elev with missing cells, slope with -1 cells), model.mpt and the folder results/",
+                    "evaluated_by": {"program": 'Program.from_source(source, libraries=EEMS_NETCDF_LIBRARIES, working_dir="").run()', "program.": 'Program.from_source(source, libraries=EEMS_NETCDF_LIBRARIES, working_dir=".").run()',
+                                     "cli": "mpilot eems-netcdf model.mpt (in-process)", "cli./": "mpilot eems-netcdf ./model.mpt (in-process)",
+                                     "body": 'EEMSWrite.execute(OutFileName="out.nc", DimensionFileName="in.nc", ...) on the two fields'}[how]}
+            for f in ("out.nc", "out2.nc", "results/out.nc"):
+                if os.path.exists(f):
+                    os.remove(f)
+            ctx.case("bare-names %s %s %s" % (inn, out, how), sample=None)
+            ctx.count("bare_relative_name_runs:" + how.rstrip("./"))
+            try:
+                with numpy.errstate(all="ignore"):
+                    if how.startswith("program"):
+                        Program.from_source(src, libraries=EEMS_NETCDF_LIBRARIES, working_dir="." if how.endswith(".") else "").run()
+                    elif how.startswith("cli"):
+                        with open("model.mpt", "w") as f:
+                            f.write(src)
+                        code, err, crash = clicorr._invoke(cli_main, ["eems-netcdf", "./model.mpt" if how.endswith("/") else "model.mpt"])
+                        if code != 0:
+                            ctx.fail("`mpilot eems-netcdf model.mpt`, run from the model's folder, ends with exit status %r: %s" % (code, " / ".join((err or crash).split("\n"))[:300]), desc)
+                            continue
+                    else:
+                        EEMSWrite("W", []).execute(OutFileName=out, OutFieldNames=[eems.Producer(elev, "Elev", False), eems.Producer(numpy.ma.array(slope, mask=(slope == -1)), "Slope", False)],
+                                                   DimensionFileName=inn, DimensionFieldName="elev")
+            except Exception as e:
+                ctx.fail("a NetCDF model whose files are named relative to the current directory (OutFileName %r) fails: %s %s" % (out, type(e).__name__, " / ".join(str(e).split("\n"))[:200]), desc)
+                continue
+            if not os.path.exists(out):
+                ctx.fail("the model ran but %r was not written in the current directory" % out, desc)
+                continue
+            with Dataset(out) as ds:
+                for nm, a in (("Elev", numpy.ma.getdata(elev)), ("Slope", slope)):
+                    got = ds[nm][:] if nm in ds.variables else None
+                    if got is None or got.shape != (ny, nx) or got.dtype.kind != "f" or not numpy.array_equal(numpy.ma.getmaskarray(got), want_mask) or not numpy.array_equal(numpy.ma.getdata(got)[~want_mask], a[~want_mask]):
+                        ctx.fail("result %s written under the relative name %r does not read back as written (shape, element kind, values, missing cells)" % (nm, out), desc)
+                        break
+                if not (numpy.array_equal(numpy.ma.getdata(ds["lat"][:]), lat) and numpy.array_equal(numpy.ma.getdata(ds["lon"][:]), lon)) or getattr(ds["lat"], "units", None) != "degrees_north":
+                    ctx.fail("coordinate values / attributes of the template were not copied unchanged (relative name %r)" % out, desc)
+    finally:
+        os.chdir(start)
 
 
 def run(ctx):
@@ -405,6 +557,8 @@ def run(ctx):
                 ctx.disagree("ncwrite", desc, repr(v)[:200], part[:200] + " :: " + d)
                 break
     programs(ctx, tmp)
+    grid_ladder(ctx, tmp)
+    bare_relative_names(ctx, tmp)
     return ctx.finish(
         rule="(a) one variable per file: rank 1-3 grids incl. length-1 axes, float or integer storage, library-masked cells (explicit or default fill value), read with "
              "every DataType (none, Float, Integer, Positive Float, Positive Integer, Fuzzy) x MissingValue (none, int, float, fractional) x existing/missing variable; "
